@@ -5,12 +5,15 @@
 (* (recorded by the Go driver), recomputes the requirement with the        *)
 (* operators of PegSem/TokenConsumers and writes one line per rejected     *)
 (* observation plus per-unit statistics.                                   *)
-(*   JUDGE_IN: joined NDJSON, one record [sc, units] per scenario          *)
+(*   JUDGE_IN: prefix of the joined NDJSON files, one record [sc, units]   *)
+(*             per scenario, one file per chunk                            *)
 (*   JUDGE_OUT: directory for verdict files; JUDGE_CHUNKS: parallelism     *)
 (***************************************************************************)
 EXTENDS TokenConsumers, Analysis, Json, IOUtils
 
-Recs   == ndJsonDeserialize(IOEnv.JUDGE_IN)
+\* the joined records are split by the orchestrator into one file per chunk (JUDGE_IN_<c>.ndjson), so that
+\* every TLC worker deserialises only the records it judges
+RecsOf(c) == ndJsonDeserialize(IOEnv.JUDGE_IN \o "_" \o ToString(c) \o ".ndjson")
 CHUNKS == atoi(IOEnv.JUDGE_CHUNKS)
 OUTDIR == IOEnv.JUDGE_OUT
 
@@ -232,14 +235,15 @@ JudgeRec(rec) ==
       out == JudgeUnits(sc, B, rec.units, du, 1)
   IN [k \in 1..Len(out) |-> [id |-> sc.id] @@ out[k]]
 
-RECURSIVE JudgeChunk(_, _)
-JudgeChunk(c, n) == IF n > Len(Recs) THEN <<>> ELSE JudgeRec(Recs[n]) \o JudgeChunk(c, n + CHUNKS)
+RECURSIVE JudgeSeq(_, _)
+JudgeSeq(recs, n) == IF n > Len(recs) THEN <<>> ELSE JudgeRec(recs[n]) \o JudgeSeq(recs, n + 1)
+JudgeChunk(c) == JudgeSeq(RecsOf(c), 1)
 
 VARIABLES chunk, done
 Init == chunk \in 1..CHUNKS /\ done = FALSE
 Next == /\ ~done
         /\ done' = TRUE
         /\ chunk' = chunk
-        /\ ndJsonSerialize(OUTDIR \o "/verdict_" \o ToString(chunk) \o ".ndjson", JudgeChunk(chunk, chunk))
+        /\ ndJsonSerialize(OUTDIR \o "/verdict_" \o ToString(chunk) \o ".ndjson", JudgeChunk(chunk))
 Spec == Init /\ [][Next]_<<chunk, done>>
 =============================================================================
